@@ -4,7 +4,7 @@ ENGINES = [
     {
         "name": "kani-cbmc",
         "path": "/verif/kani/core",
-        "serves_properties": ["C01", "C05", "C08", "C10", "C13", "C15", "C16", "C17", "C20"],
+        "serves_properties": ["C01", "C05", "C08", "C09", "C10", "C13", "C15", "C16", "C17", "C20"],
         "kind_free_text": "Kani 0.68 proof harnesses (kani::any inputs, kani::unwind bounds, unwinding assertions on) over the "
         "real shuttle crates compiled with feature verif-hooks; decided by CBMC 6.11 + CaDiCaL. The same harnesses build "
         "natively against a stand-in for the kani crate (src/shim.rs, src/bin/native.rs) for harness validation and for "
@@ -23,6 +23,9 @@ ENGINES = [
 ]
 
 NOTES = (
+    "C09 is decided by a second engine (mirsym-z3): the nightly compiler's MIR dump of the scratch copy's shuttle-schedulers, regenerated on every run, "
+    "is executed symbolically with z3 (lib/mirsym.py); code outside its MIR subset or std models makes the job inconclusive (exit 2), never a pass; "
+    "its counterexamples (choice trees) are replayed natively against the real DfsScheduler before VIOLATION is printed. "
     "Every check copies /repo's working tree to /var/tmp/shuttle-verif/<id>/repo, builds the harness crate against it, runs one "
     "CBMC process per harness instance (memory and wall caps), requires the kani::cover! reachability witnesses to be satisfied, "
     "extracts any counterexample with Kani's concrete playback, replays it natively against the real code and only then prints "
